@@ -7,6 +7,7 @@
      b64enc / b64dec               b64dec (b64enc x) = Some x
    The random salt is an argument ([Some salt]; [None] = the entropy source failed). *)
 From Coq Require Import List ZArith Bool Arith.
+From V Require Import Lib.GoSem Gen.CryptCode Run.C09Code Proofs.CryptCode.
 From V Require Import Lib.Enc Gen.Cryptz Model.Aes Model.Crypt Proofs.AesPkcs7 Proofs.CryptKdf Proofs.CryptEnv Proofs.CryptStream Proofs.CryptRefine.
 Import ListNotations.
 
@@ -188,3 +189,53 @@ Theorem c09_model_meets_spec : forall (E D : bytes -> bytes -> bytes)
   spec_ok std_enc std_dec std_ctr seal open md5 b64enc b64dec o (run_op E D seal open md5 b64enc b64dec o) = true.
 Proof. exact model_meets_spec9. Qed.
 Print Assumptions c09_model_meets_spec.
+
+(* ---- translator tie: golib's own code in cryptz/crypt.go, translated to Gallina by gen/ on every run (coq/Gen/CryptCode.v,
+        go2v + [ext:T08] + [ext:T09]), is equal to the hand model Model/Crypt.v, function by function, for all arguments.
+        What is not code of crypt.go is the parameter [Foreign]; it is instantiated with [stdc E D seal open md5 osalt]
+        (Run/C09Code.v): md5.Sum = md5, io.ReadFull(rand.Reader, buf) = the salt input [osalt] (None: error, buffer
+        untouched), bytes.Equal = beq, the four AES functions of cryptz/aes.go = cbc_encrypt / cbc_decrypt / gcm_encrypt /
+        gcm_decrypt of Model/Aes.v on the buffer handed over (C08 ties those to the code of aes.go).
+   - fillCred: with fuel >= 4 (three rounds + the exit test) the final content of cred is what fill_loop says, a panic
+     where it says Panic (cred shorter than i*16 in round i), for every cred / salt / secret; in particular on the zeroed
+     48-byte array it is fill_cred (= EVP_BytesToKey by c09_fill_cred_is_evp);
+   - fillSaltAndCred: error 19 and nothing written when the random source fails, else (salt, cred after fillCred, nil);
+   - SaltBySecretCBCEncrypt / SaltBySecretGCMEncrypt = salt_cbc_encrypt / salt_gcm_encrypt (value, error code or panic;
+     premise: the random source delivers the 8 bytes asked for);
+   - SaltBySecretCBCDecrypt / SaltBySecretGCMDecrypt: the Go results (plaintext, error) = the first component of
+     salt_cbc_decrypt / salt_gcm_decrypt, for every input, both values of reuseCipherText (the model's second component,
+     the final content of the caller's array, is not in the translation: dead-alias rule of [ext:T09]). *)
+Theorem c09_code_is_model : forall (E D : bytes -> bytes -> bytes)
+  (seal : bytes -> bytes -> bytes -> bytes -> bytes) (open : bytes -> bytes -> bytes -> bytes -> option bytes)
+  (md5 : bytes -> bytes), (forall m, length (md5 m) = 16) ->
+  forall osalt : option bytes,
+  let X := stdc E D seal open md5 osalt in
+  (forall fuel cred salt secret, 4 <= fuel ->
+     g_fillCred fuel X cred salt secret = cred_res (fill_loop md5 ROUNDS 0 (zeros 16) secret salt cred)) /\
+  (forall fuel salt secret, 4 <= fuel ->
+     g_fillCred fuel X (zeros CRED) salt secret = cred_res (fill_cred md5 secret salt)) /\
+  (forall fuel salt cred secret, 4 <= fuel ->
+     g_fillSaltAndCred fuel X salt cred secret =
+     match osalt with
+     | None => Ret (salt, (cred, E_SALT))
+     | Some s => GoSem.bind (cred_res (fill_loop md5 ROUNDS 0 (zeros 16) secret s cred)) (fun c => Ret (s, (c, 0%Z)))
+     end) /\
+  (forall fuel p secret, 4 <= fuel -> (forall s, osalt = Some s -> length s = 8) ->
+     g_SaltBySecretCBCEncrypt fuel X p secret = bytes_res9 (salt_cbc_encrypt E md5 osalt p secret)) /\
+  (forall fuel ct secret reuse, 4 <= fuel ->
+     g_SaltBySecretCBCDecrypt fuel X ct secret reuse = bytes_res9 (plain_of (salt_cbc_decrypt D md5 ct secret reuse))) /\
+  (forall fuel p secret ad, 4 <= fuel -> (forall s, osalt = Some s -> length s = 8) ->
+     g_SaltBySecretGCMEncrypt fuel X p secret ad = bytes_res9 (salt_gcm_encrypt seal md5 osalt p secret ad)) /\
+  (forall fuel ct secret ad reuse, 4 <= fuel ->
+     g_SaltBySecretGCMDecrypt fuel X ct secret ad reuse = bytes_res9 (plain_of (salt_gcm_decrypt open md5 ct secret ad reuse))).
+Proof.
+  intros E D seal open md5 Hmd5 osalt X.
+  exact (conj (code_fillCred E D seal open md5 Hmd5 osalt)
+        (conj (fun fuel salt secret => code_fillCred E D seal open md5 Hmd5 osalt fuel (zeros CRED) salt secret)
+        (conj (code_fillSaltAndCred E D seal open md5 Hmd5 osalt)
+        (conj (code_SaltBySecretCBCEncrypt E D seal open md5 Hmd5 osalt)
+        (conj (code_SaltBySecretCBCDecrypt E D seal open md5 Hmd5 osalt)
+        (conj (code_SaltBySecretGCMEncrypt E D seal open md5 Hmd5 osalt)
+              (code_SaltBySecretGCMDecrypt E D seal open md5 Hmd5 osalt))))))).
+Qed.
+Print Assumptions c09_code_is_model.
